@@ -238,6 +238,19 @@ def setItem (t : List Int) (i : Int) (v : Int) : R (List Int) :=
   else if -(len t) ≤ i ∧ i < 0 then .ok (setAt t (len t + i) v)
   else .error .index
 
+/-- the binary digits of `n`, most significant first (`fuel` ≥ the number of digits) -/
+def binDigitsAux : Nat → Nat → List Bool → List Bool
+  | 0, _, acc => acc
+  | fuel + 1, n, acc => if n = 0 then acc else binDigitsAux fuel (n / 2) ((n % 2 == 1) :: acc)
+
+/-- `bin(x)` as its list of characters: an optional `-`, then `0b`, then the binary digits of `|x|` (`bin(0) = '0b0'`) -/
+def bin (x : Int) : List Char :=
+  (if x < 0 then ['-'] else []) ++ ['0', 'b'] ++
+    (if x.natAbs = 0 then [false] else binDigitsAux (x.natAbs + 1) x.natAbs []).map (fun b => if b then '1' else '0')
+
+/-- `s.count(c)` for a one-character `c`: the number of occurrences -/
+def strCount (c : Char) (s : List Char) : Int := (s.count c : Nat)
+
 /-- `sum(t)` -/
 def sum (t : List Int) : Int := t.foldl (· + ·) 0
 
